@@ -27,3 +27,6 @@ claim("C04",
       "Decides the typing tables and their agreement: the admitted (left type x operator) matrix and the literal kind per arm, that every Compare implementation casts the value to the variant the parser admitted for its operator, that the (container, index kind) table is the same in the parser, in static typing and in the run-time accessors, that each documented typing check precedes the only construction of the corresponding node, and that logical nodes have static type Bool or Array(Bool). Exact acceptance of arbitrary compositions and panic-freedom of all accepted programs are not decided.",
       TB + " User check_param implementations are outside the claim.",
       "HIR match-arm table extraction + sibling agreement + preceding-guard rules")
+claim("C01",
+      "Decides every finite table that fixes operator meaning, on all entries: operator spellings (33) and shadowing, the ordering masks constant-folded into the 6x4 truth table, the Rust operator of each of the 18 generated comparison bodies tied to its match arm, IP family separation, the absent-value default of all compile_with sites (false except `!=` -> nil-not-equal setting), setter/getter/default of that setting, the and/or/xor/not compilation tables, precedence order + recursion guard + flattening, `not` binding. Arithmetic in core is trusted; run-time composition is not decided.",
+      TB, "HIR match-arm / macro-expansion table extraction vs. spec tables, constant folding")
